@@ -1,5 +1,5 @@
 """C04 — subtracting time points inverts addition."""
-from . import ALL_MODES
+from . import ALL_MODES, T1_CAL, TICK, ADD_EXACT, REZONE, CAL_LEMMAS
 
 ID = "C04"
 LEVEL = "proof"
@@ -8,7 +8,8 @@ FUNCS = [("data:TimePoint.__sub__", r"^tp:"), "data:Duration.__mul__",
          "data:Duration.__eq__",
          "ghost:sub_antisymmetric", "ghost:add_then_sub", "ghost:sub_then_add",
          "ghost:difference_sign_agrees"]
-LEMMAS = ["opaque.dby.step", "opaque.dby.range", "cal.key.order", "ord.key.order"]
+FUNCS = FUNCS + T1_CAL + TICK + ADD_EXACT + REZONE + [("data:TimePoint._cmp", r"^(eq|gt):(cal-hms/ord-hm|ord-h/week-hms|week-hm/cal-h)$")]
+LEMMAS = CAL_LEMMAS + ["opaque.dby.step", "opaque.dby.range", "cal.key.order", "ord.key.order"]
 CANARIES = ["canary.dby.step.wrong"]
 from .C02 import _DI, _TI   # noqa
 
